@@ -201,6 +201,10 @@ def run(ctx):
         ctxlib.flat_leg(ctx, h, ["rand", "30000"], "rand")
     else:       # a third of the depth-3 enumeration (C07 runs all of it), chosen by the seed
         ctxlib.flat_leg(ctx, h, ["exh", "3", str(ctx.seed % 3), "3"], "exh3/3")
+    # bracketed CallContext trees against Model.CallCtx: the propagation of terminations (inherited flags) is
+    # not observable through the public API, only through behaviour
+    from . import ctxcall
+    ctxcall.call_leg(ctx, h, 20000 if ctx.tier == "thorough" else 4000)
     ctx.log("Lua-level sweep")
     runner = common.build_go("c05", "cmd/c05")
     if ctx.tier == "thorough":
